@@ -391,7 +391,10 @@ fn checked_history(seq: &[Op]) -> u64 {
         let without: Vec<Op> = seq.iter().cloned().filter(|o| !matches!(o, Op::Roundtrip)).collect();
         if capture(|| { run_history(&without); }).is_empty() {
             for m in fails {
-                fail(format!("C13: a serialization round-trip injected in a history changes a later outcome (the same history without it passes): {m}"));
+                // (the properties of the original clause are violated in this history too: it contains a reload)
+                let orig = m.split(':').next().unwrap_or("").to_string();
+                let lbl = if orig.starts_with('C') && orig.len() <= 24 { format!("C13/{orig}") } else { "C13".to_string() };
+                fail(format!("{lbl}: a serialization round-trip injected in a history changes a later outcome (the same history without it passes): {m}"));
             }
             return n;
         }
@@ -503,7 +506,7 @@ fn malleability__every_byte_of_an_encapsulation_is_bound() {
     done();
 }
 
-// @obl props=C07 tier=quick fn=core::primitives::decaps shape="structural rearrangements: reorder / drop / duplicate components, swap components, tags and traps between two encapsulations (classic and hybridized), 3 keys"
+// @obl props=C07,C12,C14 tier=quick fn=core::primitives::decaps shape="structural rearrangements (incl. no trap / no component at all): reorder / drop / duplicate components, swap components, tags and traps between two encapsulations (classic and hybridized), 3 keys"
 #[test]
 fn malleability__structural_rearrangements_are_rejected() {
     let (cc, _msk, mpk, keys) = mall_world();
@@ -537,10 +540,15 @@ fn malleability__structural_rearrangements_are_rejected() {
         let mut c = x1.c.clone(); c.reverse(); push("reordered traps", XEnc { c, ..x1.clone() });
         let mut c = x1.c.clone(); c.pop(); push("dropped trap", XEnc { c, ..x1.clone() });
         let mut c = x1.c.clone(); c.push(x1.c[0].clone()); push("duplicated trap", XEnc { c, ..x1.clone() });
+        push("all traps dropped", XEnc { c: vec![], ..x1.clone() });
+        push("all components dropped", XEnc { encapsulations: match &x1.encapsulations { Encapsulations::CEncs(_) => Encapsulations::CEncs(vec![]), Encapsulations::HEncs(_) => Encapsulations::HEncs(vec![]) }, ..x1.clone() });
         for (name, m) in &mutants {
             if *m == x1 { continue; }
             for (ki, usk) in keys.iter().enumerate() {
-                let r = cc.decaps(usk, m);
+                let r = match std::panic::catch_unwind(std::panic::AssertUnwindSafe(|| cc.decaps(usk, m))) {
+                    Ok(r) => r,
+                    Err(_) => { vchk!(false, "C14/C12: decapsulating the well-formed encapsulation for '{e1}' with {name} panics (key {ki})"); continue }
+                };
                 vchk!(!matches!(r, Ok(Some(_))), "C07: encapsulation for '{e1}' with {name} is accepted by key {ki}");
                 n += 1;
             }
@@ -946,6 +954,25 @@ fn freshness__repeated_calls_never_repeat() {
         vchk!(published.insert(mpk2.encryption_keys[&r].serialize().unwrap().to_vec()), "C16: a rekey publishes a public value that was published before");
         n += 1;
     }
+    // ... also once the attribute was disabled in between (the newest secret, not an older activated one, is what counts)
+    {
+        let c = Covercrypt::default();
+        let (mut m, p0) = cc_keygen(&c, false).unwrap();
+        let mut seen: BTreeSet<Vec<u8>> = p0.encryption_keys.values().map(|k| k.serialize().unwrap().to_vec()).collect();
+        let mut publish = |p: &MasterPublicKey, what: &str, n: &mut u64| {
+            for k in p.encryption_keys.values() { seen.insert(k.serialize().unwrap().to_vec()); }
+            let _ = what; *n += 1;
+        };
+        let p1 = c.rekey(&mut m, &ap("DPT::FIN")).unwrap();
+        publish(&p1, "rekey", &mut n);
+        m.access_structure.disable_attribute(&QualifiedAttribute::new("DPT", "FIN")).unwrap();
+        let p2 = c.update_msk(&mut m).unwrap();
+        let r = m.access_structure.ap_to_enc_rights(&ap("DPT::FIN")).unwrap().into_iter().next().unwrap();
+        vchk!(!p2.encryption_keys.contains_key(&r), "C16/C06: after disabling, nothing is published for the right (in particular not a value published before the rekey)");
+        let p3 = c.rekey(&mut m, &ap("DPT::FIN")).unwrap();
+        vchk!(!p3.encryption_keys.contains_key(&r), "C16/C06: a rekey after disabling publishes nothing for the right, never an older value again");
+        n += 2;
+    }
     println!("VERIF-COUNT freshness__repeated_calls_never_repeat {n}");
     done();
 }
@@ -1012,7 +1039,7 @@ fn recaps__preserves_the_audience() {
         // mixed flavours: classic encapsulation targeting a hybridized right as well
         "(SEC::TOP && DPT::FIN) || (SEC::LOW && DPT::HR)", "(SEC::TOP && DPT::MKG) || DPT::RD"];
     let users = ["SEC::TOP && DPT::FIN", "DPT::HR", "SEC::LOW && DPT::MKG", "SEC::TOP && DPT::MKG", "DPT::RD", "SEC::LOW && DPT::FIN"];
-    for scenario in 0..7 {
+    for scenario in 0..8 {
         let cc = Covercrypt::default();
         let (mut msk, mpk0) = cc_keygen(&cc, false).unwrap();
         let mut keys: Vec<UserSecretKey> = users.iter().map(|u| cc.generate_user_secret_key(&mut msk, &ap(u)).unwrap()).collect();
@@ -1027,7 +1054,9 @@ fn recaps__preserves_the_audience() {
             4 => { msk.access_structure.del_attribute(&QualifiedAttribute::new("DPT", "HR")).unwrap(); let m = cc.update_msk(&mut msk).unwrap(); model.update(&omega_of(&msk.access_structure)); m }
             // an attribute shared by classic, mixed and all-hybridized originals is disabled / deleted: the other targets survive
             5 => { msk.access_structure.disable_attribute(&QualifiedAttribute::new("DPT", "FIN")).unwrap(); let m = cc.update_msk(&mut msk).unwrap(); model.update(&omega_of(&msk.access_structure)); m }
-            _ => { msk.access_structure.del_attribute(&QualifiedAttribute::new("DPT", "FIN")).unwrap(); let m = cc.update_msk(&mut msk).unwrap(); model.update(&omega_of(&msk.access_structure)); m }
+            6 => { msk.access_structure.del_attribute(&QualifiedAttribute::new("DPT", "FIN")).unwrap(); let m = cc.update_msk(&mut msk).unwrap(); model.update(&omega_of(&msk.access_structure)); m }
+            // rekey, then disable: the chain holds an older secret still flagged active behind a deactivated front
+            _ => { model.rekey(&rights_of(&msk.access_structure, "DPT::FIN", true)); cc.rekey(&mut msk, &ap("DPT::FIN")).unwrap(); msk.access_structure.disable_attribute(&QualifiedAttribute::new("DPT", "FIN")).unwrap(); let m = cc.update_msk(&mut msk).unwrap(); model.update(&omega_of(&msk.access_structure)); m }
         };
         // half of the keys are refreshed
         let mut mkeys: Vec<MKey> = users.iter().map(|u| MKey { chains: BTreeMap::new() }).collect();
@@ -1113,6 +1142,8 @@ fn signature__structural_tampering_is_rejected() {
     if let Some(i) = c1.iter().position(|x| x.1.iter().any(|s| s.is_hybridized())) {
         let mut c = c1.clone(); c[i].1 = c[i].1.iter().map(|s| s.drop_hybridization()).collect(); mutants.push(("flavour changed (KEM key dropped)".into(), rebuild(&k1, c)));
     }
+    mutants.push(("all rights removed".into(), rebuild(&k1, vec![])));
+    { let mut k = rebuild(&k1, vec![]); k.signature = None; mutants.push(("all rights removed and signature stripped".into(), k)); }
     { let mut k = k1.clone(); k.id = k2.id.clone(); mutants.push(("identifier of another issued key".into(), k)); }
     { let mut k = k1.clone(); k.signature = None; mutants.push(("signature stripped".into(), k)); }
     { let mut k = k1.clone(); let mut s = k.signature.unwrap(); s[5] ^= 1; k.signature = Some(s); mutants.push(("signature altered".into(), k)); }
